@@ -133,9 +133,21 @@ def correspondence(ctx):
                 except Exception:  # noqa: BLE001
                     continue
                 shapes.append((label, lambda v, rr=rr: v in rr))
+        # history: the scheme's own versions, in the spellings shared with other classes, are tested first, so that
+        # anything remembered about (range, printed text) is there when the foreign version with that text arrives
+        for t in ("1.2.3", "1.0.1"):
+            try:
+                w = vcls(t)
+            except Exception:  # noqa: BLE001
+                continue
+            for _kind, fn in shapes:
+                try:
+                    fn(w)
+                except Exception:  # noqa: BLE001
+                    pass
         for c in names:
             pred = xa["xin %s %s" % (vcls.__name__, c)]
-            for sc, vcv in samples[c][:1]:
+            for sc, vcv in samples[c][:1] + samples[c][-1:]:
                 for kind, fn in shapes:
                     try:
                         r = fn(vcv)
